@@ -556,6 +556,8 @@ class Unit:
             return ('p', x[1]) if x[0] == 'a' else ('p', x)
         if name == 'std::vector' and a0 is not None and len(a0) > 1:
             return ('n', [comps[0], ('vector', [a0[0]])])
+        if name == 'std::set' and a0 is not None and len(a0) > 1:
+            return ('n', [comps[0], ('set', [a0[0]])])
         if name in ('std::tuple_element::type',):
             i = a0[0][1]
             tup = T.strip_const(a0[1])
@@ -875,7 +877,7 @@ class Emitter(Unit):
             if q.startswith('std::'):
                 args = comps[-1][1] or []
                 short = q.replace('::', '_')
-                if q in ('std::array', 'std::vector', 'std::pair', 'std::optional', 'std::tuple'):
+                if q in ('std::array', 'std::vector', 'std::pair', 'std::optional', 'std::tuple', 'std::set'):
                     name = short + '_' + '_'.join(self.tmangle(a) for a in args)
                 elif any(q.startswith(x) for x in STD_EMPTY_TAGS):
                     name = 'std_empty'
@@ -1125,6 +1127,9 @@ class Emitter(Unit):
             el = self.ctype(args[0])
             text = 'STD_VECTOR_TYPE(%s, %s)' % (cn, el)
             self.std_used.add(('vector', cn, el))
+        elif q == 'std::set':
+            el = self.ctype(args[0])
+            text = 'STD_SET_TYPE(%s, %s)' % (cn, el)
         elif cn == 'std_empty':
             text = 'struct std_empty { char _e; };'
         elif q.startswith('std::'):
@@ -1514,7 +1519,17 @@ class Emitter(Unit):
         if k == 'CompoundStmt':
             out.append(pad[:-2] + '{')
             for c in s.get('inner', []) or []:
-                out += self.stmt(c, fc, ind)
+                if self.cfg.get('lazy_unsupported') and not top:
+                    # opt-in per unit: a statement outside the translatable subset becomes a refutable `model:`
+                    # obligation (reaching it makes the run undecided, exit 2); the rest of the block is dropped.
+                    try:
+                        out += self.stmt(c, fc, ind)
+                    except Unsupported as ex:
+                        out.append(pad + '__CPROVER_assert(0, "model: construct outside the extractable subset reached (%s)");' % str(ex).replace('"', "'").replace('\\', '/')[:160])
+                        out.append(pad + '__CPROVER_assume(0);')
+                        break
+                else:
+                    out += self.stmt(c, fc, ind)
             out.append(pad[:-2] + '}')
             return out
         if lm:
@@ -2169,6 +2184,8 @@ class Emitter(Unit):
                 self.need_record(vt, pcn)
                 return '(%s = %s, (struct %s){1, (struct %s){%s.first, %s.second}})' % (t, self.expr(args[0], fc), cn, pcn, t, t)
             return '((struct %s){1, %s})' % (cn, self.expr(args[0], fc))
+        if q == 'std::set' and len(args) == 0:
+            return '((struct %s){0})' % cn
         if q == 'std::vector':
             if len(args) == 0:
                 if target is None:
@@ -2266,7 +2283,7 @@ class Emitter(Unit):
             return self.qual_name(r['id'], with_args=False)
         # not in the dump: a std:: or libc function.  names of libc functions are global.
         nm = r.get('name', '?')
-        if nm in ('abs', 'labs', 'llabs', 'fabs', 'sqrt', 'memset', 'memcpy', 'floor', 'ceil', 'pow', 'log2', 'exp', 'log'):
+        if nm in ('abs', 'labs', 'llabs', 'fabs', 'sqrt', 'memset', 'memcpy', 'floor', 'ceil', 'pow', 'log2', 'exp', 'log', 'getenv'):
             return 'std::' + nm
         if fd is not None:
             return nm
@@ -2382,6 +2399,13 @@ class Emitter(Unit):
         if q == 'std::pair':
             if name == 'operator=':
                 return '(%s = %s)' % (o, self.expr(args[0], fc))
+        if q == 'std::set':
+            cn = self.record_cname(oty)
+            self.need_record(oty, cn)
+            if name == 'insert' and len(args) == 1:
+                return '%s__insert(%s, %s)' % (cn, self.addr_of_str(o), self.expr(args[0], fc))
+            if name in ('size', 'empty', 'clear'):
+                return '%s__%s(%s)' % (cn, name, self.addr_of_str(o))
         if q == 'std::vector':
             cn = self.record_cname(oty)
             self.need_record(oty, cn)
@@ -2494,6 +2518,8 @@ class Emitter(Unit):
                 return '(%s %s %s)' % (self.expr(args[0], fc), name[8:], self.expr(args[1], fc))
         if name == 'hardware_concurrency':
             return '__verif_hardware_concurrency()'
+        if name == 'getenv':
+            return '__verif_getenv(%s)' % self.expr(args[0], fc)
         if name in ('epsilon', 'max', 'min', 'lowest') and len(args) == 0:
             t = T.strip_const(self.ntype(e, fc.fid))
             pre = {'float': 'FLT', 'double': 'DBL', 'long double': 'LDBL', 'int': 'INT', 'long': 'LONG', 'unsigned long': 'ULONG', 'unsigned int': 'UINT'}.get(t[1])
